@@ -820,7 +820,9 @@ c_rule_loadpX (OrcCompiler *p, void *user, OrcInstruction *insn)
       ORC_ASM_CODE(p,"    %s = ((orc_union64 *)(ex->src_ptrs[%d]))->i;\n",
           dest, insn->src_args[0] - ORC_VAR_P1 + p->program->n_src_vars);
     } else {
-      if (size == 8) {
+      /* only an 8-byte parameter has a high word in the executor; a narrower
+       * one given to a 64-bit operation is sign-extended */
+      if (size == 8 && p->vars[insn->src_args[0]].size == 8) {
         ORC_ASM_CODE(p,"    %s = (ex->params[%d] & 0xffffffff) | ((orc_uint64)(ex->params[%d + (ORC_N_PARAMS)]) << 32);\n",
             dest, insn->src_args[0], insn->src_args[0]);
       } else {
